@@ -319,6 +319,9 @@ def replay_find_base(cex):
 
 def replay(cex):
     k = cex.get("kind")
+    if k == "w":
+        from engine import wrun
+        return wrun.replay_generic(cex)
     if k == "linear-step":
         return replay_linear_sat(cex)
     if k == "linear-merge":
@@ -357,6 +360,9 @@ def main():
             obs.append(common.Ob(f"log{bits} merge (real-idealised): {grp}", realmode.ob_merge_ideal, (bits, tmo, grp), hard_s=tmo / 1000 * 3 + 120, bounds={"bits": bits}))
     obs.append(common.Ob("_func(b) = 0 <=> the ceiling decodes to max_count (real-idealised)", ob_func_char, (tmo,), hard_s=tmo / 1000 + 120, bounds={"uint_max": "1..65535 symbolic", "max_count": "< 2^63 symbolic"}))
     obs.append(common.Ob("_find_base: 200 Newton steps on exactly the given parameters; ValueError iff base < 1.000000001", ob_find_base_plumbing, (tmo,), hard_s=tmo / 1000 * 6 + 300, bounds={"max_count": "all uint64", "loop": "200 iterations unrolled"}))
+    from engine import wrun
+    wobs, wmeta = wrun.obligations("c18", tier)
+    obs += wobs
     obs.append(common.Ob("witness: a linear estimate reaches the ceiling from below in the add harness", c05.ob_linear_witness, (2, 2, "ceiling"), kind="witness", hard_s=300))
     results = common.run_obligations(obs, progress=os.environ.get("VERIF_VERBOSE") == "1")
     funcs = set()
@@ -366,7 +372,7 @@ def main():
         PID, tier, "model_checking", obs, results, t0=t0, funcs=funcs,
         bounds={"linear_shapes(width,depth)": shapes, "heavy_hitter_max_key_len": mkls, "log": "symbolic counter / num_reserved / base; _find_base loop fully unrolled (200)"},
         stubs=["fasthash64 -> uninterpreted columns", "_rand -> arbitrary draw", "pow/log uninterpreted (IEEE mode) or with algebraic laws (real-idealised)", "_func/_funcprime recorded when checking _find_base's plumbing"],
-        assumptions=["Numba lowering preserves typed-IR semantics", "wrappers cap multiplicities at 2^32-1 (C12)"],
+        assumptions=["Numba lowering preserves typed-IR semantics", "the add()/update(dict) wrappers of CountMinLinear and HeavyHitters cap multiplicities at 2^32-1 before the (uint32) kernel argument: CrossHair conditions of w_c12 attached"],
         outside=["that 200 Newton steps converge, and that the ValueError threshold fires exactly for the configurations whose ceiling would not decode to max_count (numeric iteration through **, not encodable; the replay of any plumbing counterexample does check real constructors)",
                  "float rounding in the log counters"],
         explanation="saturating behaviour of every counter update decided on the real kernels from arbitrary states; _find_base reduced to its characteristic equation (idealised) and parameter plumbing",
